@@ -191,6 +191,8 @@ class Report:
                 tail = " no-failing-input-found" if v["no_input"] else ""
                 print("# violated: %s [%s] %s" % (v["site"], v["kind"], v["what"][:300]))
                 print("VIOLATION property=%s replay=%s%s" % (self.pid, v["replay"], tail))
+            for u in self.undecided:
+                print("# (also undecided) %s" % u[:300])
             return 1
         if self.undecided:
             for u in self.undecided:
